@@ -54,6 +54,9 @@ func c04Stream(env *fw.Env) {
 	for _, off := range []int{2, 4, 9, 40} {
 		jobs = append(jobs, job{"stall+local-writes", off})
 	}
+	for k := 0; k < env.Pick(2, 8); k++ {
+		jobs = append(jobs, job{"short-then-long-gap", k})
+	}
 	for k := 0; k < env.Pick(2, 10); k++ {
 		jobs = append(jobs, job{"slow-steady", k})
 	}
@@ -118,6 +121,8 @@ func c04StreamOne(env *fw.Env, i int64, kind string, arg int) {
 		t8 = 100 * time.Millisecond
 	case "slow-steady":
 		t8 = 300 * time.Millisecond
+	case "short-then-long-gap":
+		t8 = 2 * time.Second // 7 % of it (140 ms) is the margin this case keeps to T8 on a loaded machine
 	}
 	rg, err := newRig(rigOpts{Active: cs.Active, T8: t8})
 	if err != nil {
@@ -294,6 +299,39 @@ func c04StreamOne(env *fw.Env, i int64, kind string, arg int) {
 			fail("stalled-frame-delivered", "the remainder of a frame that stalled past T8 was accepted and delivered")
 		}
 		env.Event("in_frame_stalls_dropped", 1)
+	case "short-then-long-gap":
+		// T8 is measured PER GAP: a short pause (T8/5) followed by a long one (0.85 x T8) — together more than T8, each
+		// of them less — must not time the frame out
+		f := peer.Data(5, 9, false, 0x1234, 0x1B000000|uint32(arg), append([]byte{0x21, 40}, randBytes(r, 40)...))
+		b := f.Bytes()
+		cut1, cut2 := 2+arg%10, 17+arg%20
+		cs.Frames, cs.Bytes, cs.Cuts = 1, len(b), []int{cut1, cut2}
+		env.Begin(i, cs)
+		env.Sample(cs)
+		env.Eval(fw.Hash64(b, []byte(fmt.Sprint("short-long", arg))), true)
+		_ = pc.SendRaw(b[:cut1])
+		t1 := time.Now()
+		time.Sleep(t8 / 5)
+		_ = pc.SendRaw(b[cut1:cut2])
+		t2 := time.Now()
+		time.Sleep(t8 * 85 / 100)
+		err := pc.SendRaw(b[cut2:])
+		g1, g2 := t2.Sub(t1), time.Since(t2)
+		if g2 >= t8*93/100 || g1 >= t8/4 {
+			env.Discard() // the harness itself overslept: premise (every gap clearly inside T8) not met
+			return
+		}
+		if err != nil {
+			fail("gap-inside-t8-dropped", fmt.Sprintf("a frame in three segments with gaps %v and %v (T8 %v, each gap inside T8): the last write failed: %v", g1.Round(time.Millisecond), g2.Round(time.Millisecond), t8, err))
+			return
+		}
+		if _, err := pc.Barrier(20 * time.Second); err != nil {
+			fail("gap-inside-t8-dropped", fmt.Sprintf("a frame in three segments with gaps %v and %v (T8 %v; each gap is inside T8, only their sum exceeds it) dropped the link: %v", g1.Round(time.Millisecond), g2.Round(time.Millisecond), t8, err))
+			return
+		}
+		if checkDelivered([]peer.Frame{f}) {
+			env.Event("short_then_long_gap_frames_delivered", 1)
+		}
 	case "slow-steady":
 		f := peer.Data(5, 7, false, 0x1234, 0x1A000000|uint32(arg), append([]byte{0x21, 40}, randBytes(r, 40)...))
 		b := f.Bytes()
